@@ -14,7 +14,7 @@ claimed = {
          "Bounds: 2 goroutines, 1 call each, <=5 context switches, 1 pre-state entry (live/expired/absent), clock frozen during the concurrent phase. The map under the cache is replaced by its linearizable specification (seam).",
          "solver-based context-bounded symbolic scheduling (go/ssa -> SMT, z3), linearizability oracle, native schedule replay"),
  'C03': ("Context-bounded symbolic scheduling of the real Map code (Load, doCompute, lockBucket/unlockBucket, top-hash helpers): two threads (1 op each, and 1 || 2 ops) from an arbitrary valid 1-bucket state, 2 rounds with symbolic boundaries (all interleavings with <=3 context switches at atomic-operation granularity), uninterpreted hash (top-hash collisions included). Oracle: linearizability vs reference map + quiescent Load/Size.",
-         "Bounds: 2 goroutines, tables of 1 root bucket with <=1 pre-state entry, <=3 context switches, in the pair/triple instances executions that request a grow/shrink are outside (Clear pairs and more pairs at thorough); resize||op instances: one whole-table grow 1->2 buckets (thorough: shrink 2->1) started directly with m.resize(table, hint), overlapping one call (quick: Clear, Store). A grow requested from inside a Store overlapping another call, and larger tables, could not be encoded within reach (formula size); stated in DESIGN.md.",
+         "Bounds: 2 goroutines, tables of 1 root bucket with <=1 pre-state entry, <=3 context switches, in the pair/triple instances executions that request a grow/shrink are outside (Clear pairs and more pairs at thorough); resize||op instances: one whole-table grow 1->2 buckets started directly with m.resize(table, hint), overlapping one call, in both thread orders (quick: Clear, Store; thorough: Load, Store, Delete; grow||Compute and shrink||Store on Map did not finish and are not registered). A grow requested from inside a Store overlapping another call, and larger tables, could not be encoded within reach (formula size); stated in DESIGN.md.",
          "solver-based context-bounded symbolic scheduling (go/ssa -> SMT, z3), linearizability oracle, native schedule replay"),
  'C05': ("Context-bounded symbolic scheduling of two racers on one key at map level (real Map/MapOf code) and cache level (real cache code over the map's atomic specification) with ghost call counters in the user functions: results, loaded flags and number of user-function calls must be those of a sequential order. Sequential 'exactly once, also across an internal retry after grow' is decided by the C11 step harnesses (grow inside the step).",
          "Bounds: 2 racers, <=3 (map level) / <=5 (cache level) context switches, key absent/live/expired.",
